@@ -11,7 +11,7 @@ import (
 
 func init() {
 	register(&Rule{
-		ID: "ERR-FLOW", Props: []string{"C14"}, Floor: 8,
+		ID: "ERR-FLOW", Props: []string{"C14", "C15", "C16"}, Default: []string{"C14"}, Floor: 8,
 		Doc: "every error of Operations.Update/Delete and every BatchEntry.Result reaches retries.Add or opResult.err; commitStatus queues a retry for every failed result whose status it wrote; a popped retry is processed; a change or a success clears the retry state; inside a round a consumed change is always processed unless the status filter skips it",
 		Run: ruleErrFlow,
 	})
@@ -515,6 +515,7 @@ func ruleRetryBook(c *Ctx, r *Reporter) {
 	// the item: phi(lookup result, fresh)
 	fields := map[string]bool{}
 	cond := map[string]bool{}
+	created := map[string]bool{}
 	for _, ia := range allInstrs(add) {
 		st, ok := ia.In.(*ssa.Store)
 		if !ok {
@@ -529,7 +530,9 @@ func ruleRetryBook(c *Ctx, r *Reporter) {
 			continue
 		}
 		if _, isAlloc := fa.X.(*ssa.Alloc); isAlloc {
-			continue // initialisation of the fresh item's literal
+			// initialisation of the fresh item's literal: set at creation
+			created[f] = true
+			continue
 		}
 		fields[f] = true
 		// conditional? (only under the creation branch)
@@ -544,14 +547,24 @@ func ruleRetryBook(c *Ctx, r *Reporter) {
 			}
 		}
 	}
-	for _, f := range []string{"object", "rev", "origRev", "delete", "lastError", "retryAt", "numRetries"} {
+	// what changes from failure to failure must be refreshed on every Add: the object (after the
+	// same-pending-id fallback the status sits on a newer version, F-L), the retry time and the
+	// attempt counter
+	for _, f := range []string{"object", "retryAt", "numRetries"} {
 		props := []string{"C14", "C16"}
-		if f == "object" || f == "rev" || f == "origRev" || f == "delete" {
-			// the retried operation and its status write-back must refer to one version
+		if f == "object" {
 			props = append(props, "C15")
 		}
-		r.checkP(props, fields[f] && !cond[f], "reconciler.(retries).Add|refreshes item."+f, c.posStr(add.Pos()), "item."+f+" is updated on every Add", "item."+f+" is not refreshed on every failure (only when the item is created, or never): a later retry runs with stale data - e.g. a stale revision makes every status commit fail and the object is abandoned")
+		r.checkP(props, fields[f] && !cond[f], "reconciler.(retries).Add|refreshes item."+f, c.posStr(add.Pos()), "item."+f+" is updated on every Add", "item."+f+" is not refreshed on every failure (only when the item is created, or never): a later retry runs with a stale object / is not re-scheduled with a longer backoff")
 	}
+	// what is fixed for the life of an item (a change of the object clears the item) only has to be set
+	for _, f := range []string{"rev", "delete"} {
+		r.checkP([]string{"C14", "C15"}, fields[f] || created[f], "reconciler.(retries).Add|sets item."+f, c.posStr(add.Pos()), "item."+f+" is set (at creation or on every Add)", "item."+f+" is never set: retries run the wrong operation / with revision 0")
+	}
+	// the revision of the failing change is recorded when the item is created and kept over
+	// repeated failures: every attempt's status write bumps the object's revision, and a
+	// watermark that followed it would pass the revision of the change that is still failing
+	r.checkP([]string{"C16"}, (created["origRev"] || cond["origRev"]) && !(fields["origRev"] && !cond["origRev"]), "reconciler.(retries).Add|item.origRev is the revision of the failing change", c.posStr(add.Pos()), "origRev is recorded when the item is created and not overwritten by later failures of the same change", "item.origRev is overwritten on every failure with the revision of the previous attempt's status write: after the second failure the retry low watermark is past the revision of the change that is still failing, and a caller of WaitUntilReconciled that waits for `both revisions past mine` is told its change was reconciled successfully")
 	// both heaps maintained on both edges
 	for _, q := range []string{"queue", "revQueue"} {
 		fix, push := false, false
